@@ -194,6 +194,13 @@ static void run_case(const vh::Case &cs, Worker &w) {
         }
         if (!any && c.outstanding) break;
     }
+    if (c.outstanding) {
+        // the consumer / destructor can never be released (no source is suspended): the worker thread is lost.
+        // Finish the case output and ask for a fresh process (vlib.run_impl restarts on exit code 42).
+        std::printf("END\n");
+        std::fflush(stdout);
+        std::_Exit(42);
+    }
     if (c.gen) {
         // destroy the aggregate on the worker, releasing pending sources as needed
         x.destroying = true;
@@ -206,6 +213,11 @@ static void run_case(const vh::Case &cs, Worker &w) {
                     break;
                 }
             settled = w.recheck();
+        }
+        if (!settled) {
+            std::printf("END\n");
+            std::fflush(stdout);
+            std::_Exit(42);
         }
     }
     x.list.clear();
